@@ -280,6 +280,69 @@ func extractC01() *lean {
 	}
 	l.def("checkSignatureFlagIsPerCredential", "Bool", map[bool]string{true: "true", false: "false"}[perCred], perCred)
 
+	// ---- wiring: WHERE the verifier is called from and with which flags (allowUntrusted, checkSignature / verifyVCs, time)
+	var sites []string
+	for _, rel := range []string{"vcr/api/vcr/v2/api.go", "vcr/holder/sql_wallet.go", "vcr/store.go", "vcr/search.go", "vcr/vcr.go", "vcr/ambassador.go",
+		"vcr/revocation/statuslist2021_verifier.go", "auth/api/iam/openid4vp.go", "auth/api/iam/openid4vci.go", "auth/api/iam/s2s_vptoken.go",
+		"auth/services/oauth/authz_server.go", "auth/services/selfsigned/validator.go", "discovery/client.go", "discovery/module.go"} {
+		_, f := parseFile(rel)
+		for _, d := range f.Decls {
+			fd, ok := d.(*ast.FuncDecl)
+			if !ok || fd.Body == nil {
+				continue
+			}
+			ast.Inspect(fd.Body, func(n ast.Node) bool {
+				ce, ok := n.(*ast.CallExpr)
+				if !ok {
+					return true
+				}
+				sel, ok := ce.Fun.(*ast.SelectorExpr)
+				if !ok {
+					return true
+				}
+				recv := c01Expr(sel.X)
+				isVerifier := strings.Contains(strings.ToLower(recv), "verifier") || recv == "cs" || strings.HasSuffix(recv, "Verifier()")
+				switch sel.Sel.Name {
+				case "Verify", "VerifyVP", "VerifySignature", "RegisterRevocation", "NewVerifier":
+					if isVerifier || sel.Sel.Name == "NewVerifier" {
+						sites = append(sites, rel+":"+fd.Name.Name+": "+c01Expr(ce))
+					}
+				}
+				return true
+			})
+		}
+	}
+	l.def("verifierCallSites", "List String", leanStrList(sites), sites)
+	_, apiF := parseFile("vcr/api/vcr/v2/api.go")
+	seq("apiVerifyVCReturns", apiF, "VerifyVC")
+	seq("apiVerifyVPReturns", apiF, "VerifyVP")
+	_, storeF := parseFile("vcr/store.go")
+	seq("storeCredentialReturns", storeF, "StoreCredential")
+	seq("walletBuildPresentationReturns", wal, "BuildPresentation")
+	_, slv := parseFile("vcr/revocation/statuslist2021_verifier.go")
+	seq("statusListVerifyReturns", slv, "Verify")
+	seq("isRevokedReturns", ver, "IsRevoked")
+	seq("registerRevocationReturns", ver, "RegisterRevocation")
+	// statements of the wallet's List loop / API flag rules, as text
+	stmts := func(f *ast.File, fn string) []string {
+		var r []string
+		if fd := funcDecl(f, fn); fd != nil {
+			ast.Inspect(fd.Body, func(n ast.Node) bool {
+				switch x := n.(type) {
+				case *ast.IfStmt:
+					r = append(r, "if "+c01Expr(x.Cond))
+				case *ast.AssignStmt:
+					r = append(r, c01Stmt(x))
+				}
+				return true
+			})
+		}
+		return r
+	}
+	l.def("walletListStmts", "List String", leanStrList(stmts(wal, "List")), stmts(wal, "List"))
+	l.def("apiVerifyVCStmts", "List String", leanStrList(stmts(apiF, "VerifyVC")), stmts(apiF, "VerifyVC"))
+	l.def("apiVerifyVPStmts", "List String", leanStrList(stmts(apiF, "VerifyVP")), stmts(apiF, "VerifyVP"))
+
 	// trust.Config: the return sequences, and whether RemoveTrust drops EVERY entry equal to the issuer
 	// (a loop over the type's list that keeps the entries `!= issuer`), not just one occurrence
 	_, tr := parseFile("vcr/trust/trust.go")
